@@ -343,6 +343,31 @@ package jsonschema
 //@     invariant seen: new(propertyOrderSeen) && (forall k string {has(propertyOrderSeen, k)} :: has(propertyOrderSeen, k) <==> (exists i int :: 0 <= i && i <= $idx && s.PropertyOrder[i] == k))
 //@     invariant distinct: forall i int, j int {s.PropertyOrder[i], s.PropertyOrder[j]} :: 0 <= i && i < j && j <= $idx ==> s.PropertyOrder[i] != s.PropertyOrder[j]
 
+// marshalStructWithMap only reads its argument (it marshals a copy).
+//@ contract marshalStructWithMap(s, mapField)
+//@   pure
+
+// Schema.MarshalJSON (property C05): what the method itself decides before handing the wrapper struct to
+// encoding/json — the "type", "items", "dependencies" and "properties" unions. A keyword that is set in the
+// Schema must be set in the wrapper (nothing dropped), in the variant that was populated (nothing re-typed).
+//@ contract (Schema).MarshalJSON(s)
+//@   entry
+//@   atreturn[C05] type1: result1 == nil && s.Type != "" ==> anyIs(ms.Type, "string") && anyVal(ms.Type, "string") == s.Type
+//@   atreturn[C05] type2: result1 == nil && s.Type == "" && !isnil(s.Types) ==> anyIs(ms.Type, "[]string") && anyVal(ms.Type, "[]string") == s.Types
+//@   atreturn[C05] type3: result1 == nil && s.Type == "" && isnil(s.Types) ==> isnil(ms.Type)
+//@   atreturn[C05] items1: result1 == nil && s.Items != nil ==> anyIs(ms.Items, "*Schema") && anyVal(ms.Items, "*Schema") == s.Items
+//@   atreturn[C05] items2: result1 == nil && s.Items == nil && !isnil(s.ItemsArray) ==> anyIs(ms.Items, "[]*Schema") && anyVal(ms.Items, "[]*Schema") == s.ItemsArray
+//@   atreturn[C05] items3: result1 == nil && s.Items == nil && isnil(s.ItemsArray) ==> isnil(ms.Items)
+//@   atreturn[C05] props1: result1 == nil && s.Properties != nil ==> anyIs(ms.Properties, "orderedProperties") && anyVal(ms.Properties, "orderedProperties").props == s.Properties && anyVal(ms.Properties, "orderedProperties").order == s.PropertyOrder
+//@   atreturn[C05] props2: result1 == nil && s.Properties == nil ==> isnil(ms.Properties)
+//@   atreturn[C05] deps1: result1 == nil && len(s.DependencySchemas) + len(s.DependencyStrings) > 0 ==> ms.Dependencies != nil && (forall k string {has(ms.Dependencies, k)} :: has(ms.Dependencies, k) <==> (has(s.DependencySchemas, k) || has(s.DependencyStrings, k)))
+//@   atreturn[C05] deps2: result1 == nil && len(s.DependencySchemas) + len(s.DependencyStrings) == 0 ==> ms.Dependencies == nil
+//@   loop "range s.DependencySchemas"
+//@     invariant[C05] d1: new(dep) && (forall k string {has(dep, k)} :: has(dep, k) <==> select(visited, k)) && (forall k string {select(visited, k)} :: select(visited, k) ==> has(s.DependencySchemas, k))
+//@   loop "range s.DependencyStrings"
+//@     invariant[C05] d2: new(dep) && (forall k string {has(dep, k)} :: has(dep, k) <==> (has(s.DependencySchemas, k) || select(visited, k))) && (forall k string {select(visited, k)} :: select(visited, k) ==> has(s.DependencyStrings, k))
+//@   atreturn[C05] excl: result1 == nil ==> !(s.Type != "" && s.Types != nil) && !(s.Items != nil && s.ItemsArray != nil)
+
 // orderedProperties.MarshalJSON (property C19). The output is described through the member sequence of
 // the stream written to buf: nent members, the i-th with key keyAt(.,i) and value valAt(.,i).
 // Precondition: PropertyOrder has no duplicates (Schema.MarshalJSON runs basicChecks first; the call itself
